@@ -159,7 +159,9 @@ def run_sort(case, ctx):
     from pyg_base import sort, cmp
     xs = codec.dec(case['xs'])
     snap0 = [id(x) for x in xs]
-    st, res = ctx.call(sort, list(xs))
+    arg = list(xs)
+    st, res = ctx.call(sort, arg)
+    ctx.check('sort_input_unchanged', len(arg) == len(xs) and all(a is b for a, b in zip(arg, xs)) and (st != 'ok' or res is not arg), lambda: 'sort reordered / returned the list it was given')
     if not ctx.check('sort_never_raises', st == 'ok', lambda: 'sort raised %s' % core.exc_str(res)):
         return
     ctx.check('sort_permutation', isinstance(res, list) and sorted(map(id, res)) == sorted(snap0), lambda: 'sort result is not a permutation (by identity): %r -> %r' % (xs, res))
